@@ -89,6 +89,11 @@ CHECKS = {
    note="Trusted: simrt + instrumenter; 70-line reference model of the dependency database; probe controllers are harness code. Four genuine defects found here were repaired in /repo. Sampling only.",
    technique=TECH+"step-by-step comparison with a reference model of the dependency database, notification-exactness oracle at quiescence",
    ref="DESIGN.md §7 C17"),
+ "C19": dict(level="exploration",
+   text="Seeded search over client operation sequences at three handles (direct state, runtime cache incl. filtered cached lists, simulated gRPC leg) in which clients keep every object they passed to Create/Update/Modify or got from Get/List/UpdateWithConflicts/Modify plus Metadata.Copy() copies, interleaved with later 'scribbles' of held objects through the public API (labels Set/Delete/Do, annotations, finalizers Add/Remove/Set, phase, version, owner, spec value and token slices in place) on resources carrying three unsorted finalizers, labels and annotations; after EVERY operation the store must equal the replay of the commit log, every other held object must still equal what it was when obtained (order-sensitive), a watcher's kept event objects must be unchanged, and cached/remote views at quiescence must equal the committed state.",
+   note="Trusted: simrt + instrumenter; commit tap snapshots are value copies taken at commit time. Largely program/input-quantified: the schedule dimension matters only through several client tasks sharing storage lineage; kept because the stored-state-aliasing dimension is decided by the simulated multi-client workload with a reference replay.",
+   technique=TECH+"aliasing detection: held-object invariance and store == commit-log replay after every operation under seeded scribble faults",
+   ref="DESIGN.md §7 C19"),
 }
 
 NOT_YET = "check not built yet in this round (planned in DESIGN.md §7); no claim is made"
